@@ -7,6 +7,7 @@ CONSTANTS
   RelDone = TRUE
   AcqWait = TRUE
   LockedNotify = TRUE
+  SpuriousWake = FALSE
 SPECIFICATION FairSpec
 INVARIANTS NoDataRace ExactlyOnce TypeOK MutexOK
 PROPERTY Termination
